@@ -24,9 +24,11 @@ Definition pairs_ok (l : list (string * string)) : bool :=
   forallb (fun p => String.eqb (norm (fst p)) (norm (snd p))) l.
 
 (* K1: the fragment moved into the partial assigns a variable at its top level (or in top-level
-   @if/@each, which share the scope) without !global, and later - still inside the fragment -
-   includes a mixin: rsass runs an @import-ed file in a sub scope whose variables reach the
-   importing scope only when the file ends, so the mixin (defined outside) still sees the old global *)
+   @if/@each, which share the scope; an @each binds its variable there) without !global, and later -
+   still inside the fragment - includes a mixin or makes a !global assignment: rsass runs an
+   @import-ed file in a sub scope whose variables are copied to the importing scope only when the
+   file ends, so a mixin defined outside still sees the old global, and the copy overwrites what a
+   !global assignment wrote meanwhile *)
 Fixpoint assigns_here (s : stmt) : bool :=
   let go := fix go (l : list stmt) : bool := match l with [] => false | x :: r => assigns_here x || go r end in
   match s with
@@ -43,10 +45,18 @@ Fixpoint includes (s : stmt) : bool :=
   | SIf _ t e => go t || go e
   | _ => false
   end.
+Fixpoint sets_global (s : stmt) : bool :=
+  let go := fix go (l : list stmt) : bool := match l with [] => false | x :: r => sets_global x || go r end in
+  match s with
+  | SSet _ _ _ g => g
+  | SBlock _ b | SEach _ _ b | SFor _ _ _ _ b | SWhile _ b | SMixin _ b => go b
+  | SIf _ t e => go t || go e
+  | SRead _ _ => false
+  end.
 Fixpoint frag_risky (l : list stmt) : bool :=
   match l with
   | [] => false
-  | s :: r => (assigns_here s && existsb includes (s :: r)) || frag_risky r
+  | s :: r => (assigns_here s && existsb (fun x => includes x || sets_global x) (s :: r)) || frag_risky r
   end.
 Definition known_K1 (c : case) : bool :=
   match c_frag c with Some f => frag_risky f | None => false end.
